@@ -10,6 +10,10 @@ use vcore::{json, Stats};
 
 pub fn check_grammar(p: &Prepared, _known: &Known, stats: &mut Stats) {
     let og = Gm::new(&passes::back_rules(&p.opt));
+    // factor and list merge attempts on purpose (a rule tried twice becomes a rule tried once); every
+    // other pass must leave the reportable attempts alone
+    let st = passes::stages(&p.ast);
+    let merging_passes_idle = st[4] == st[5] && st[5] == st[6];
     let mut sampled = false;
     for start in &p.starts {
         for input in p.inputs.iter() {
@@ -32,6 +36,16 @@ pub fn check_grammar(p: &Prepared, _known: &Known, stats: &mut Stats) {
             if !sampled && (stats.samples.len() < 2 || stats.get("grammars_accepted") % 4000 == 0) {
                 sampled = true;
                 stats.sample(|| json!({"grammar": p.text, "rule": start, "input": input, "reported": real_json(&r), "predicted": {"pos": pred.pos, "positives": pred.positives, "negatives": pred.negatives}}));
+            }
+            // the report the *written* grammar calls for (the fold on the unoptimized AST): wherever the
+            // two attempt-merging passes did nothing it must be the report of the optimized rules too
+            let mut written_differs: Option<String> = None;
+            if merging_passes_idle {
+                match predict_error(&p.gm, start, input) {
+                    Some(w) if w.pos == pred.pos && w.positives == pred.positives && w.negatives == pred.negatives => stats.inc("written_grammar_report.same"),
+                    Some(w) => written_differs = Some(format!("the written grammar calls for pos {} +{:?} -{:?}, the optimized rules for pos {} +{:?} -{:?} (factor and list did not apply)", w.pos, w.positives, w.negatives, pred.pos, pred.positives, pred.negatives)),
+                    None => stats.inc("written_grammar_report.written-does-not-fail(C05)"),
+                }
             }
             let mut problems: Vec<String> = vec![];
             // soundness clauses, straight from the attempt forest
@@ -60,8 +74,11 @@ pub fn check_grammar(p: &Prepared, _known: &Known, stats: &mut Stats) {
             if problems.is_empty() && (*pos != pred.pos || positives != &pred.positives || negatives != &pred.negatives) {
                 problems.push(format!("collapse rule: fold predicts pos {} +{:?} -{:?}", pred.pos, pred.positives, pred.negatives));
             }
+            if let Some(w) = written_differs {
+                problems.push(w);
+            }
             if !problems.is_empty() {
-                let class = if problems[0].starts_with("collapse") { "collapse-rule" } else if problems[0].starts_with("position") { "position" } else { "soundness" };
+                let class = if problems[0].starts_with("the written") { "optimizer-changes-the-report" } else if problems[0].starts_with("collapse") { "collapse-rule" } else if problems[0].starts_with("position") { "position" } else { "soundness" };
                 stats.violation_class(class, json!({"kind": "error-report-unsound", "grammar": p.text, "rule": start, "input": input, "reported": real_json(&r), "problems": problems,
                     "features": if cfg!(feature = "extras") { "grammar-extras" } else { "default" }, "backend": "vm"}));
             }
